@@ -15,6 +15,7 @@ use xml_dom::{Attr, CharacterData, Document, DocumentType, Element, Node, Proces
 pub fn main(sub: &str, args: &[String]) -> i32 {
     match sub {
         "cli-run" => run(args),
+        "cli-args" => run_args(args),
         _ => {
             eprintln!("unknown subcommand {}", sub);
             2
@@ -231,6 +232,82 @@ pub fn render_selected(text: &str, tree: &J, sel: &[i64]) -> Option<String> {
     Some(out)
 }
 
+/// command lines of MC_CliArgs.tla: every entry of `argv` is ["lit", text] or ["file"] (the path of a file holding
+/// the document); the document is also on standard input.
+fn run_args(args: &[String]) -> i32 {
+    let inp = arg_value(args, "--in").unwrap_or("-");
+    let outp = arg_value(args, "--out").unwrap_or("-");
+    let xq = arg_value(args, "--xq").unwrap_or("xq").to_string();
+    let xe = arg_value(args, "--xe").unwrap_or("xe").to_string();
+    let docfile = arg_value(args, "--docfile").unwrap_or("doc.xml").to_string();
+    let mut out = open_out(outp);
+    let mut cases: Vec<J> = vec![];
+    for_each_case(inp, |c| if c["k"] == "args" { cases.push(c) });
+    cases.sort_by_key(|c| (c["tool"].as_str().map(|s| s.to_string()), c["toks"].to_string()));
+    if let Some(c) = cases.first() {
+        if std::fs::write(&docfile, cps_to_string(&c["text"])).is_err() {
+            eprintln!("cannot write {}", docfile);
+            return 2;
+        }
+    }
+    let jobs: usize = arg_value(args, "--jobs").and_then(|v| v.parse().ok()).unwrap_or(8);
+    let chunks: Vec<Vec<(usize, J)>> = (0..jobs).map(|k| cases.iter().cloned().enumerate().skip(k).step_by(jobs).collect()).collect();
+    let mut handles = vec![];
+    for chunk in chunks {
+        let (xq, xe, docfile) = (xq.clone(), xe.clone(), docfile.clone());
+        handles.push(std::thread::spawn(move || {
+            let mut evs: Vec<(usize, J)> = vec![];
+            for (i, c) in chunk {
+                let text = cps_to_string(&c["text"]);
+                let tool = c["tool"].as_str().unwrap_or("");
+                let a: Vec<String> = c["argv"].as_array().map(|v| v.as_slice()).unwrap_or(&[]).iter()
+                    .map(|x| if x[0] == "file" { docfile.clone() } else { cps_to_string(&x[1]) }).collect();
+                let o = run_tool(if tool == "xq" { &xq } else { &xe }, &a, &text);
+                let mut ev = json!({"event": "args", "tool": tool, "toks": c["toks"], "argv": c["argv"],
+                                    "code": o.code, "stderr_len": o.stderr_len, "utf8": o.stdout_utf8,
+                                    "stdout": string_to_cps(&o.stdout.chars().take(400).collect::<String>()),
+                                    "expect_text": c["expect"]});
+                if tool == "xq" {
+                    let sel: Vec<i64> = c["sel"].as_array().map(|v| v.iter().filter_map(|x| x.as_i64()).collect()).unwrap_or_default();
+                    let (tree, t2) = (c["tree"].clone(), text.clone());
+                    match guarded(move || render_selected(&t2, &tree, &sel)) {
+                        Ok(Some(s)) => {
+                            ev["sel_out"] = string_to_cps(&s);
+                            ev["renderable"] = json!(true);
+                        }
+                        _ => {
+                            ev["sel_out"] = json!([]);
+                            ev["renderable"] = json!(false);
+                        }
+                    }
+                    ev["out"] = json!({"ok": false});
+                    ev["exp"] = json!({"ok": false});
+                } else {
+                    ev["sel_out"] = json!([]);
+                    ev["renderable"] = json!(true);
+                    ev["out"] = signature_of_text(&o.stdout);
+                    ev["exp"] = signature_of_text(&cps_to_string(&c["expect"]));
+                }
+                evs.push((i, ev));
+            }
+            evs
+        }));
+    }
+    let mut all: Vec<(usize, J)> = vec![];
+    for h in handles {
+        all.extend(h.join().unwrap_or_default());
+    }
+    all.sort_by_key(|e| e.0);
+    let n = all.len();
+    for (_, ev) in all {
+        writeln!(out, "{}", ev).unwrap();
+    }
+    out.flush().unwrap();
+    let _ = std::fs::remove_file(&docfile);
+    println!("{}", json!({"runs": n}));
+    0
+}
+
 fn run(args: &[String]) -> i32 {
     let inp = arg_value(args, "--in").unwrap_or("-");
     let outp = arg_value(args, "--out").unwrap_or("-");
@@ -274,11 +351,19 @@ fn run_case(c: &J, xq: &str, xe: &str, evs: &mut Vec<J>) {
         let expr = cps_to_string(&c["expr"]);
         let k = c["k"].as_str().unwrap_or("");
         for indent in [false, true] {
-            let mut a: Vec<String> = vec!["--xpath".into(), expr.clone()];
+            let mut a: Vec<String> = vec![];
+            // --setns arguments exactly as the specification gives them (well-formed and malformed ones)
+            for v in c["setns"].as_array().map(|v| v.as_slice()).unwrap_or(&[]) {
+                a.push("--setns".into());
+                a.push(cps_to_string(v));
+            }
+            a.push("--xpath".into());
+            a.push(expr.clone());
             if !indent {
                 a.push("--no-indent".into());
             }
-            let mut ev = json!({"event": k, "di": c["di"], "ei": c["ei"], "fi": c["fi"], "indent": indent});
+            let mut ev = json!({"event": k, "di": c["di"], "ei": c["ei"], "fi": c["fi"], "indent": indent,
+                                "setns": c.get("setns").cloned().unwrap_or(json!([]))});
             if k == "xq" {
                 let o = run_tool(xq, &a, &text);
                 ev["code"] = json!(o.code);
